@@ -63,7 +63,8 @@ def _case(draw):
     if method in ("class:LobattoIIIC4", "class:ImplicitMidpoint"):
         tol = max(tol, 1e-6)
     return dict(part="facade", method=method, shape=shape, A=A, y0=draw(st.lists(st.integers(-4, 4).map(lambda k: k / 2.0), min_size=n, max_size=n)),
-                args=args, t0=t0, tf=tf, t_eval=t_eval, te_kind=te_kind,
+                args=args, sig_defaults=(draw(st.sampled_from([None, None, "all", "one_required"])) if nargs >= 1 else draw(st.sampled_from([None, None, "all"]))),
+                t0=t0, tf=tf, t_eval=t_eval, te_kind=te_kind,
                 max_step=draw(st.sampled_from([None, None, 0.05, 0.2, 10.0])), first_step=draw(st.sampled_from([None, 0.1, 0.01, 5.0])),
                 tol=tol, dense=draw(st.booleans()), event=draw(st.sampled_from([None, None, "time"])))
 
@@ -83,6 +84,22 @@ def _make_rhs(case, baked):
     def core(t, y, p1, p2, p3):
         return (p1 * p3 * (A @ y.reshape(n)) + 0.0 * p2).reshape(shape) * 1.0 + (p2 - p2)
 
+    if case.get("sig_defaults"):
+        # a right-hand side that declares defaults, with args covering none / some / all of the defaulted parameters
+        own = [1.5, 0.25, 2.0]
+        if baked:
+            vals = args + own[len(args):]
+
+            def f(t, y):
+                return core(t, y, *vals)
+            return f
+
+        def f(t, y, p1=1.5, p2=0.25, p3=2.0):
+            return core(t, y, p1, p2, p3)
+        if case["sig_defaults"] == "one_required":
+            def f(t, y, p1, p2=0.25, p3=2.0):       # noqa: F811
+                return core(t, y, p1, p2, p3)
+        return f
     if baked:
         vals = args + defaults[len(args):]
 
@@ -162,7 +179,7 @@ def check(case):
         return viols, dict(nontrivial=False, labels=labels)
     osys = res.ode_system
     A = np.asarray(case["A"], dtype=np.float64)
-    p = list(case["args"]) + [1.0, 1.0, 1.0][len(case["args"]):]
+    p = list(case["args"]) + ([1.5, 0.25, 2.0] if case.get("sig_defaults") else [1.0, 1.0, 1.0])[len(case["args"]):]
     Aeff = p[0] * p[2] * A
     n = A.shape[0]
     mu = float(np.max(np.abs(np.linalg.eigvalsh((Aeff + Aeff.T) / 2))))
@@ -214,7 +231,7 @@ def check(case):
     if viols:
         return viols, dict(nontrivial=False, labels=labels)
     # ---- args: parameters baked into a closure
-    if case["args"]:
+    if case["args"] or case.get("sig_defaults"):
         res2, _ = _call(case, baked=True)
         if not np.array_equal(np.asarray(res2.t), t) or not np.array_equal(np.asarray(res2.y), y):
             viols.append(V("args_binding", "{}: args={} does not give the run with the parameters bound in order (max state difference {:.3e})".format(
